@@ -218,7 +218,7 @@ func runStartup(scratch string, s Snap) StartupResult {
 	writeDecoys(scratch)
 	cmd := exec.Command(bin)
 	cmd.Dir = scratch
-	cmd.Env = []string{"HOME=" + scratch, "DASTARD_VERIF_C16=settings", "PATH=" + os.Getenv("PATH")}
+	cmd.Env = append([]string{"HOME=" + scratch, "DASTARD_VERIF_C16=settings", "PATH=" + os.Getenv("PATH")}, decoyEnv()...)
 	var stdout, stderr bytes.Buffer
 	cmd.Stdout = &stdout
 	cmd.Stderr = &stderr
